@@ -10,7 +10,7 @@
 (* scenario) and the rest of that scenario is skipped; a scenario that     *)
 (* uses inputs the specification does not model is counted as unmodelled.  *)
 (***************************************************************************)
-EXTENDS OutstationEv, Json, IOUtils
+EXTENDS OutstationEv, Json, DevSets, IOUtils
 
 Rec == ndJsonDeserialize(IOEnv.TRACE)
 
@@ -70,7 +70,7 @@ Differ(pe, e) ==
 
 TInit == /\ l = 1 /\ s = Init0 /\ sc = "" /\ mode = "skip"
          /\ lastReq = [bid |-> -1, seq |-> -1]
-         /\ res = [ok |-> 0, div |-> <<>>, unmodelled |-> <<>>, steps |-> 0]
+         /\ res = [ok |-> 0, div |-> <<>>, unmodelled |-> <<>>, steps |-> 0, fired |-> <<>>]
 
 EndScenario(r) == IF mode = "run" THEN [r EXCEPT !.ok = @ + 1] ELSE r
 
@@ -96,7 +96,9 @@ TNext ==
                     /\ lastReq' = IF e.k = "rx" /\ e.fc # 0 THEN [bid |-> e.bid, seq |-> e.seq]
                                   ELSE IF e.k \in {"cut"} THEN [bid |-> -1, seq |-> -1] ELSE lastReq
                     /\ IF d = "ok" THEN /\ mode' = mode
-                                        /\ res' = [res EXCEPT !.steps = @ + 1]
+                                        /\ res' = [res EXCEPT !.steps = @ + 1,
+                                                               !.fired = @ \o SetToSeq({[sc |-> sc, line |-> l, dev |-> x] :
+                                                                                        x \in s1.devs \ s.devs})]
                        ELSE /\ mode' = "skip"
                             /\ res' = [res EXCEPT !.div = Append(@, [sc |-> sc, line |-> l, what |-> d,
                                                                     devs |-> s1.devs])]
@@ -109,17 +111,16 @@ BiPt(ix, cls)    == [ty |-> "bi", ix |-> ix, cls |-> cls, esz |-> 9, ssz |-> 1, 
                      ev |-> 2, sg |-> 1, sv |-> 2]
 Pts_os2_cap1 == <<OsPt(0, 1, 130), OsPt(1, 2, 130)>>
 Pts_os2_cap2 == <<OsPt(0, 1, 100), OsPt(1, 2, 100)>>
-Pts_mixed    == <<OsPt(0, 1, 130), BiPt(0, 2)>>
+Pts_mixed    == <<BiPt(0, 2), OsPt(0, 1, 130)>>   \* class 0 reports in type order
 EvMax_os2    == <<0, 0, 0, 0, 0, 0, 0, 2>>
 EvMax_os1    == <<0, 0, 0, 0, 0, 0, 0, 1>>
 EvMax_mixed  == <<2, 0, 0, 0, 0, 0, 0, 2>>
-DEV_none     == {}
 DEV_DisconnectKeepsWritten == {"DisconnectKeepsWritten"}
 DEV_EchoUsesFirstHeader == {"EchoUsesFirstHeader"}
 DEV_OverflowKeepsWrittenCount == {"OverflowKeepsWrittenCount"}
 DEV_UnsolAbortKeepsWritten == {"UnsolAbortKeepsWritten"}
 DEV_asbuilt  == {"UnsolAbortKeepsWritten", "OverflowKeepsWrittenCount", "EchoUsesFirstHeader",
-                 "DisconnectKeepsWritten"}
+                 "DisconnectKeepsWritten", "IdleRepeatRefreshesIin"}
 CZ_os        == {"os", "bi"}
 Cl123        == {1, 2, 3}
 
